@@ -1,15 +1,33 @@
 #!/usr/bin/env python3
-"""For every seeded change: does the check of the seed's OWN property raise a new (not known-finding) violation?"""
+"""seed_matrix.py [--wt <scratch worktree>] [seed dirs...]
+For every seeded change: does the check of the seed's OWN property raise a new (not known-finding) violation?
+With --wt the patch is applied to a scratch worktree of /repo (tools/wt_patch.py), otherwise to /repo itself
+(tools/try_patch.py).  Paths are relative to the checkout this script lives in, so that it can run from a frozen copy
+(tools/frozen.sh).  A seed whose confirm.json carries "superseded_by_fix" is listed and not counted: a later fix: commit
+removed the construct the change relied on, so on today's tree the change no longer breaks the property."""
 import json, os, subprocess, sys, glob
-kf = {e["key"] for e in json.load(open("/verif/known_findings.json")) if e["status"] == "open"}
+V = os.path.dirname(os.path.dirname(os.path.abspath(__file__)))
+args = sys.argv[1:]
+wt = None
+if args[:1] == ["--wt"]:
+    wt, args = args[1], args[2:]
+kf = {e["key"] for e in json.load(open(V + "/known_findings.json")) if e["status"] == "open"}
 rows = []
-dirs = sorted(glob.glob("/verif/seeded/C*-*")) if len(sys.argv) < 2 else sys.argv[1:]
+dirs = sorted(glob.glob(V + "/seeded/C*-*")) if not args else args
 for d in dirs:
-    pid = os.path.basename(d).split("-")[0]
+    pid = os.path.basename(d.rstrip("/")).split("-")[0]
     patch = os.path.join(d, "patch.diff")
     if not os.path.exists(patch):
         continue
-    r = subprocess.run(["python3", "/verif/tools/try_patch.py", patch, pid], capture_output=True, text=True)
+    try:
+        cj = json.load(open(os.path.join(d, "confirm.json")))
+    except Exception:
+        cj = {}
+    if cj.get("superseded_by_fix"):
+        rows.append((os.path.basename(d), "SUPERSEDED", "by fix " + cj["superseded_by_fix"]))
+        continue
+    cmd = ["python3", V + "/tools/wt_patch.py", wt, patch, pid] if wt else ["python3", V + "/tools/try_patch.py", patch, pid]
+    r = subprocess.run(cmd, capture_output=True, text=True)
     try:
         out = json.loads(r.stdout)
     except Exception:
@@ -17,6 +35,9 @@ for d in dirs:
         continue
     new = [k for k in out.get(pid, []) if k not in kf]
     rows.append((os.path.basename(d), "CAUGHT" if new else "MISSED", new[:2]))
+    print("%-8s %-7s %s" % (rows[-1][0], rows[-1][1], "; ".join(x[:110] for x in rows[-1][2])), flush=True)
+n = [r for r in rows if r[1] in ("CAUGHT", "MISSED")]
 for r in rows:
-    print("%-8s %-7s %s" % (r[0], r[1], "; ".join(x[:110] for x in r[2]) if isinstance(r[2], list) else r[2]))
-print("caught %d / %d" % (sum(1 for r in rows if r[1] == "CAUGHT"), len(rows)))
+    if r[1] not in ("CAUGHT", "MISSED"):
+        print("%-8s %-7s %s" % r)
+print("caught %d / %d (superseded %d, errors %d)" % (sum(1 for r in n if r[1] == "CAUGHT"), len(n), sum(1 for r in rows if r[1] == "SUPERSEDED"), sum(1 for r in rows if r[1] == "ERROR")))
